@@ -56,30 +56,79 @@ func c01e(c *Ctx) {
 
 // splitChunkForBranch: result id = receiver's returnID when last, else id of the new chunk.
 func c01eSplit(c *Ctx, fn *ssa.Function) {
-	rets := returnsOf(fn)
-	if len(rets) != 1 {
-		c.Unk("splitChunkForBranch/returns", c.W.FuncPos(fn), fmt.Sprintf("expected a single return, found %d", len(rets)))
-		return
+	// the post-logic chunk: made in place or by a constructor helper
+	var newChunk ssa.Value
+	for _, ci := range c.chunkAllocs(fn) {
+		newChunk = ci.a
 	}
-	phi, ok := rets[0].Results[1].(*ssa.Phi)
-	if !ok {
-		c.Unk("splitChunkForBranch/result", c.W.Pos(rets[0].Pos()), "returned id is not a merge of the two arms")
-		return
+	if newChunk == nil {
+		for _, ci := range callsIn(fn) {
+			g := callee(ci)
+			if g != nil && c.W.InRepo(g) && len(c.chunkAllocs(g)) == 1 {
+				if v, ok := ci.(ssa.Value); ok {
+					newChunk = v
+				}
+			}
+		}
+	}
+	newID := ""
+	if newChunk != nil {
+		newID = c.nodePath(fn, newChunk, lastInstrOf(fn, newChunk), "id")
+	}
+	// the alternatives of the returned id with the literals under which they are returned
+	type alt struct {
+		term string
+		must []string
+		pos  string
+	}
+	var alts []alt
+	for _, r := range returnsOf(fn) {
+		if len(r.Results) < 2 {
+			continue
+		}
+		if phi, ok := r.Results[1].(*ssa.Phi); ok && !isLoopHeader(phi.Block()) {
+			for i, e := range phi.Edges {
+				alts = append(alts, alt{c.term(fn, e), c.mustLits(fn, phi.Block().Preds[i]), c.W.Pos(r.Pos())})
+			}
+			continue
+		}
+		alts = append(alts, alt{c.term(fn, r.Results[1]), c.mustLits(fn, r.Block()), c.W.Pos(r.Pos())})
 	}
 	okLast, okNew := false, false
-	for i, e := range phi.Edges {
-		pred := phi.Block().Preds[i]
-		must := c.mustLits(fn, pred)
-		term := c.term(fn, e)
-		if hasLit(must, "+"+isLastLit) && term == "$0.returnID" {
+	other := ""
+	for _, a := range alts {
+		isNewID := (newID != "" && a.term == newID) || (strings.HasPrefix(a.term, "(*emitter.chunk).createPostLogicChunk($0,") && strings.HasSuffix(a.term, ".id"))
+		switch {
+		case hasLit(a.must, "+"+isLastLit) && a.term == "$0.returnID":
 			okLast = true
-		}
-		if hasLit(must, "-"+isLastLit) && strings.HasPrefix(term, "(*emitter.chunk).createPostLogicChunk($0,") && strings.HasSuffix(term, ".id") {
+		case hasLit(a.must, "-"+isLastLit) && isNewID:
 			okNew = true
+		default:
+			other = a.term + " under " + fmt.Sprint(a.must)
 		}
 	}
-	c.Check(okLast, "splitChunkForBranch/last->receiver.returnID", c.W.Pos(rets[0].Pos()), "when the index is last the branch returns to the chunk's own return id", "result id when the statement is last is not the receiver's returnID")
-	c.Check(okNew, "splitChunkForBranch/notlast->new.id", c.W.Pos(rets[0].Pos()), "otherwise it returns to the new post-logic chunk", "result id when the statement is not last is not the id of the chunk made by createPostLogicChunk")
+	pos := c.W.FuncPos(fn)
+	c.Check(okLast && other == "", "splitChunkForBranch/last->receiver.returnID", pos, "when the index is last the branch returns to the chunk's own return id", "result id when the statement is last is not the receiver's returnID"+ifNonEmpty(" (also returns "+pretty(other)+")", other))
+	c.Check(okNew && other == "", "splitChunkForBranch/notlast->new.id", pos, "otherwise it returns to the new post-logic chunk", "result id when the statement is not last is not the id of the new post-logic chunk"+ifNonEmpty(" (also returns "+pretty(other)+")", other))
+}
+
+func ifNonEmpty(s, cond string) string {
+	if cond == "" {
+		return ""
+	}
+	return s
+}
+
+// lastInstrOf: a point of fn at which every field of the object v has its final value
+// (the last store into it for a local object, the value itself otherwise).
+func lastInstrOf(fn *ssa.Function, v ssa.Value) ssa.Instruction {
+	if a, ok := v.(*ssa.Alloc); ok {
+		return lastUse(a)
+	}
+	if in, ok := v.(ssa.Instruction); ok {
+		return in
+	}
+	return nil
 }
 
 func checkSplitCall(c *Ctx, name string, fn, splitFn *ssa.Function) bool {
